@@ -186,3 +186,30 @@ Example C17_nonvacuous_elem :
   /\ conv_spec 2 [1; 1; 4; 5] (map Z.of_nat (seq 1 20)) [1; 1; 2; 2] [1; 2; 3; 4] None (AScalar 2) (AScalar 1) (AScalar 2) 1
   = Some ([1; 1; 2; 3], [28; 57; 27; 82; 152; 66]).
 Proof. split; vm_compute; reflexivity. Qed.
+
+(* ---- 5. pooling windows.  slice_pool2d of output (l, y, x) is (i, i+1) on every leading axis and
+   (sh*y, sh*y+kh), (sw*x, sw*x+kw) on the two spatial axes; sliced with Python clamping a leading axis yields exactly
+   its index and a spatial axis the range s*y .. min(s*y+k, n)-1 (the nested-loop window); every floor-mode window is
+   complete (k elements per axis); every ceil-mode window on the domain has between 1 and k elements per axis. *)
+Theorem C17_pool_window : forall (lead l : list Z) H W kh kw sh sw y x, length l = length lead ->
+  slice_pool2d (l ++ [y; x]) (lead ++ [H; W]) [kh; kw] [sh; sw]
+  = map (fun i => (znth (l ++ [y; x]) i, znth (l ++ [y; x]) i + 1)) (zrange (zlen lead))
+    ++ [(sh * y, sh * y + kh); (sw * x, sw * x + kw)]
+  /\ (forall n v, 0 <= v < n -> slice_range n (v, v + 1) = [v])
+  /\ (forall n k s v, 0 <= s * v <= n -> 0 <= k ->
+        slice_range n (s * v, s * v + k) = map (Z.add (s * v)) (zrange (Z.min (s * v + k) n - s * v)))
+  /\ (forall n k s v, 1 <= s -> 1 <= k <= n -> 0 <= v < pool_extent false n k s ->
+        s * v + k <= n /\ Z.min (s * v + k) n - s * v = k)
+  /\ (forall n k s v, 1 <= s -> 1 <= k <= n -> (pool_extent true n k s - 1) * s < n -> 0 <= v < pool_extent true n k s ->
+        s * v < n /\ 1 <= Z.min (s * v + k) n - s * v <= k).
+Proof.
+  intros lead l H W kh kw sh sw y x E.
+  split; [exact (slice_pool2d_app lead l H W kh kw sh sw y x E)|].
+  split; [exact slice_range_batch|]. split; [exact slice_range_window|].
+  split; [exact window_complete_floor|exact window_nonempty_ceil].
+Qed.
+Print Assumptions C17_pool_window.
+Example C17_nonvacuous_window :
+  pool_window [1; 1; 2] [2; 5; 7] [3; 2] [2; 3] = [[1; 2; 6]; [1; 3; 6]; [1; 4; 6]]
+  /\ pool_spec_window [1; 1; 2] [2; 5; 7] [3; 2] [2; 3] = [[1; 2; 6]; [1; 3; 6]; [1; 4; 6]].
+Proof. split; reflexivity. Qed.
